@@ -1611,6 +1611,20 @@ def fam_tls(rng, n, dist):
         b.disconnect(True)
         dist.add("tls:logout-answered-120-then-%d" % codes[1])
         out.append(b.scenario())
+    # ... and logins whose PBSZ / PROT step is refused (the login stops there: nothing further is sent, nothing stays unread)
+    for k, (pb, pr) in enumerate([(503, 200), (200, 534), (500, 200), (200, 536)]):
+        b = S.Builder(rng, *ALL_METHODS[k % 4], type="I", tls=True, resume=(k % 2 == 0), tlsver=("13" if k == 3 else "12"), verify="trusted")
+        plan = dict(pbsz=pb, prot=pr)
+        if k % 2:
+            b.connect(login=(b"user-MARKER-u", b"pass-MARKER-p"), plan=plan)
+        else:
+            b.connect(login=None)
+            b.login(b"user-MARKER-u", b"pass-MARKER-p", plan=plan)
+        add_simple(b, rng, 200)
+        b.simple(b"NOOP", None, 200)
+        b.disconnect(True)
+        dist.add("tls:login-stops-at-refused-%s" % ("PBSZ" if pb >= 400 else "PROT"))
+        out.append(b.scenario())
     return out
 
 
